@@ -662,6 +662,8 @@ pub fn run_bfs<D: Driver>(opts: &RunOpts) -> Outcome {
     if let Some(f) = &opts.cfg_filter {
         cfgs.retain(|c| c.contains(f.as_str()));
     }
+    // configurations marked `nobfs=1` (huge buffers, huge amounts) are for random / scenario histories only
+    cfgs.retain(|c| !c.contains("nobfs=1"));
     let mut samples = vec![];
     let mut total_states = 0u64;
     let mut all_exhausted = true;
@@ -844,6 +846,7 @@ pub fn run_sweep<D: Driver>(opts: &RunOpts) -> Outcome {
     if let Some(f) = &opts.cfg_filter {
         cfgs.retain(|c| c.contains(f.as_str()));
     }
+    cfgs.retain(|c| !c.contains("nobfs=1"));
     let mut samples = vec![];
     let mut n_cfg = 0u64;
     let mut complete = 0u64;
